@@ -462,6 +462,13 @@ func (v *Verifier) baseVars(st *State) map[string]Value {
 	for k, val := range v.params {
 		vars[k] = val
 	}
+	// entry values of parameters: "<name>0" (a parameter that the body reassigns is shadowed by its current value in loop
+	// clauses; the entry value stays reachable under this name unless the function has something else called so)
+	for k, val := range v.params {
+		if _, clash := v.params[k+"0"]; !clash {
+			vars[k+"0"] = val
+		}
+	}
 	for name, ptr := range v.freeDeref {
 		vars[name] = v.loadAddr(st, ptr, nil)
 		vars["&"+name] = ptr
@@ -1616,6 +1623,15 @@ func (v *Verifier) execInstr(st *State, in ssa.Instruction) {
 	case *ssa.IndexAddr:
 		st.regs[x] = v.indexAddr(st, x)
 	case *ssa.Index:
+		if b, ok := x.X.Type().Underlying().(*types.Basic); ok && b.Info()&types.IsString != 0 {
+			sv := v.operand(st, x.X)
+			iv := v.operand(st, x.Index)
+			v.checkSite(st, x, "index", and("(<= 0 "+iv.T+")", "(< "+iv.T+" (slen "+sv.T+"))"), "string index out of range")
+			r := Value{T: app("sat", sv.T, iv.T), Sort: "Int", GoT: x.Type()}
+			st.assume(v.env.typeFacts(st, r))
+			st.regs[x] = r
+			break
+		}
 		v.unsupportedf("array index by value")
 	case *ssa.UnOp:
 		st.regs[x] = v.unop(st, x)
@@ -2029,6 +2045,28 @@ func (v *Verifier) binop(st *State, x *ssa.BinOp) Value {
 		if x.Op == token.AND {
 			// x & y <= both (for non-negative operands)
 			st.assume(implies(and("(>= "+a.T+" 0)", "(>= "+b.T+" 0)"), and("(<= "+r.T+" "+a.T+")", "(<= "+r.T+" "+b.T+")", "(>= "+r.T+" 0)")))
+		}
+		if x.Op == token.OR {
+			// x | y: negative iff an operand is negative (signed); for non-negative operands between max and sum
+			st.assume(implies(and("(>= "+a.T+" 0)", "(>= "+b.T+" 0)"), and("(>= "+r.T+" "+a.T+")", "(>= "+r.T+" "+b.T+")", "(<= "+r.T+" (+ "+a.T+" "+b.T+"))")))
+			if lo, _, ok := intRange(x.Type()); ok && lo.Sign() < 0 {
+				st.assume(implies(or("(< "+a.T+" 0)", "(< "+b.T+" 0)"), "(< "+r.T+" 0)"))
+			}
+		}
+		if x.Op == token.SHL || x.Op == token.SHR {
+			// a shift count of at least the operand width: x << n == 0; x >> n == 0 for x >= 0 (Go spec, "Arithmetic operators")
+			if lo, hi, ok := intRange(x.X.Type()); ok {
+				w := hi.BitLen()
+				if lo.Sign() < 0 {
+					w++
+				}
+				big := "(>= " + b.T + " " + intLit(int64(w)) + ")"
+				if x.Op == token.SHL {
+					st.assume(implies(big, eq(r.T, "0")))
+				} else {
+					st.assume(implies(and(big, "(>= "+a.T+" 0)"), eq(r.T, "0")))
+				}
+			}
 		}
 		return r
 	}
@@ -2454,6 +2492,9 @@ func (v *Verifier) modSets(c *Contract, se *SpecEnv) (sets map[string][]string, 
 				p = se.eval(m.E)
 			}
 			if p.Addr == nil {
+				if p.T == "0" {
+					continue // a nil pointer names no cell
+				}
 				sfail("modifies cell(): not a pointer to a cell")
 			}
 			sets[p.Addr.Map] = append(sets[p.Addr.Map], p.Addr.Obj)
